@@ -21,7 +21,8 @@ LEVEL_TEXT = ('Every directory state over the menu (PELs spanning the class latt
               'C07 reference rule, with ascending (or exactly reversed) file-name order and, field by field, with the full '
               'decode; -x blocks must reproduce the files. The in-process driver is tied to the executable by subprocess '
               'replays.')
-LEVEL_NOTE = 'directories larger than 8 files and names beyond the menu are not explored; malformed files belong to C09'
+LEVEL_NOTE = ('directories larger than 8 files and names beyond the menu are not explored; malformed files belong to C09; '
+              '"file-name order" is taken as plain (code point) string order, as sort / ls in the C locale give it')
 RULE = ('state = subset of the 8-file menu (quick: size <= 3 and the full set; thorough: all 256); transition = one '
         'invocation of -n / -l / -a with a switch set in 2^6, -S in {none, one, two, all groups}, optionally -r, -e .pel/.txt, '
         '-x. Non-trivial: >= 1 file selected by the options; distinct by (subset, options).')
@@ -31,10 +32,10 @@ MENU = [
     # name, eid, sev, flags, creator, subsys, commit, comp, sections
     ('m_serv.pel', 0x50000008, 0x40, 0xA000, 'O', 0x8D, '2024010203040506', 0x1000, ['PS']),
     ('a_hidden.pel', 0x50000007, 0x40, 0x6000, 'B', 0x10, '2024020304050607', 0x2000, ['PS']),
-    ('z_info', 0x50000001, 0x00, 0x0000, 'O', 0x20, '2024030405060708', 0x3000, ['PS']),
-    ('b_infosa.txt', 0x50000006, 0x00, 0x8000, 'H', 0x30, '2024040506070809', 0x4142, ['PS']),
+    ('Z_info', 0x50000001, 0x00, 0x0000, 'O', 0x20, '2024030405060708', 0x3000, ['PS']),
+    ('B_infosa.txt', 0x50000006, 0x00, 0x8000, 'H', 0x30, '2024040506070809', 0x4142, ['PS']),
     ('k_term.pel', 0x50000002, 0x51, 0x2000, 'O', 0x40, '2024050607080910', 0x5000, ['PS']),
-    ('c_pred', 0x50000005, 0x20, 0x0000, 'T', 0x50, '2024060708091011', 0x6000, ['PS']),
+    ('K_term.pel', 0x50000005, 0x20, 0x0000, 'T', 0x50, '2024060708091011', 0x6000, ['PS']),
     ('y_nosrc.pel', 0x50000003, 0x10, 0x2000, 'O', 0x60, '2024070809101112', 0x7000, ['UD']),
     ('d_pre.txt', 0x50000004, 0x71, 0x2000, 'K', 0x70, '2024080910111213', 0x8000, ['UD', 'EH', 'PS', 'MT']),
 ]
